@@ -92,7 +92,7 @@ def gen_v2(rng):
     unit = rng.choice([1, 2, 2, 3, 4])
 
     def simple(level, in_loop):
-        k = rng.randrange(16)
+        k = rng.randrange(19)
         v = "$" + rng.choice("xyz")
         s = {
             0: 'match UtteranceUserAction.Finished(final_transcript="hi")',
@@ -111,6 +111,9 @@ def gen_v2(rng):
             13: "send Ev(a=1,\n%sb=[1, 2,\n%s3])" % (" " * rng.randint(0, 9), " " * rng.randint(0, 9)),
             14: "%s = {\"k\": 1,\n%s\"j\": [2]}" % (v, " " * rng.randint(0, 7)),
             15: "break" if in_loop else "return 1",
+            16: "match A()\n%sand B()\n%sand C()" % (" " * rng.randint(1, 12), " " * rng.randint(1, 12)),
+            17: 'user said "hi"\n%sor user said "hello"' % (" " * rng.randint(1, 12)),
+            18: "await a b\n%sor (greet x1\n%sand handle a)" % (" " * rng.randint(1, 12), " " * rng.randint(0, 12)),
         }[k]
         lines.append((level, s))
 
@@ -132,7 +135,8 @@ def gen_v2(rng):
                     lines.append((level, "while $x < 3"))
                     body(level + 1, depth - 1, True)
                 else:
-                    lines.append((level, "when %s %s" % (rng.choice(NAMES), rng.choice(NAMES))))
+                    cont = "\n%sor %s" % (" " * rng.randint(1, 14), rng.choice(NAMES)) if rng.random() < 0.3 else ""
+                    lines.append((level, "when %s %s%s" % (rng.choice(NAMES), rng.choice(NAMES), cont)))
                     body(level + 1, depth - 1, in_loop)
                     if rng.random() < 0.5:
                         lines.append((level, "or when %s" % rng.choice(NAMES)))
@@ -191,8 +195,19 @@ def gen_v1(rng):
                     lines.append((level, "while $x < 3"))
                     body(level + 1, depth - 1)
             else:
-                k = rng.randrange(11)
+                k = rng.randrange(15)
+                ci = lambda: " " * rng.randint(0, 10)        # continuation lines: any indentation
+                if k == 11:     # a condition continued over three physical lines, with its block
+                    lines.append((level, "if $a == 1 and \\\n%s$b == 2 and \\\n%s$c == 3" % (ci(), ci())))
+                    lines.append((level + 1, "bot inform x"))
+                    if rng.random() < 0.5:
+                        lines.append((level, "else"))
+                        lines.append((level + 1, "bot express greeting"))
+                    continue
                 s = {
+                    12: '$msg = "a" + \\\n%s"b" + \\\n%s"c"' % (ci(), ci()),
+                    13: "user ask a or\n%suser ask b or\n%suser express greeting" % (ci(), ci()),
+                    14: '$n = 1 + \\\n%s2' % ci(),
                     0: "user express greeting",
                     1: "bot express greeting",
                     2: 'bot "Hello # there"',
@@ -230,14 +245,20 @@ def gen_v1(rng):
 
 
 def v2_safe_newlines(L, text):
-    """Offsets of the line breaks that the real lexer reads as part of a _NEWLINE token."""
+    """Offsets of every line break of the text that is not inside a string token: those of
+    _NEWLINE tokens (also inside brackets), and those swallowed by other tokens (`and` / `or`
+    continuation lines, `else <newline> if`).  Uses the real lexer WITHOUT the post-lexer."""
+    from lark.lexer import LexerThread
+
+    lexer = L._build_lexer()
     offs = []
-    for t in L.lex(text + "\n"):
-        if t.type == "_NEWLINE" and t.start_pos is not None:
-            for m in re.finditer("\n", str(t)):
-                o = t.start_pos + m.start()
-                if o < len(text):
-                    offs.append(o)
+    for t in LexerThread.from_text(lexer, text + "\n").lex(None):
+        if t.type in ("STRING", "LONG_STRING") or t.start_pos is None:
+            continue
+        for m in re.finditer("\n", str(t)):
+            o = t.start_pos + m.start()
+            if o < len(text):
+                offs.append(o)
     return sorted(set(offs))
 
 
@@ -255,7 +276,8 @@ def v2_edit(kind, text, S, rng, k=2):
     """Returns the edited text and the list of single edits [(offset, inserted)] it is made of."""
     ins = []
     if kind == "blank":
-        ins = [(o + 1, rng.choice(["", "", "  ", "     ", " \t"]) + "\n") for o in S if rng.random() < 0.4]
+        p = rng.choice([0.4, 1.0])              # some programs get a blank line at EVERY line gap
+        ins = [(o + 1, rng.choice(["", "  ", "     ", " \t", "\t", "\t  "]) + "\n") for o in S if rng.random() < p]
     elif kind == "trailing_ws":
         ins = [(o, " " * rng.choice([1, 2, 5])) for o in S if rng.random() < 0.5]
         if rng.random() < 0.5 and not text.endswith("\n"):
@@ -310,8 +332,9 @@ def v1_edit(kind, text, rng, k=2):
             out.append(l)
     elif kind in ("trailing_ws", "trailing_tab"):
         ws = " " if kind == "trailing_ws" else "\t"
+        p = rng.choice([0.5, 1.0])              # every physical line, continuation lines included
         for i, l in enumerate(lines):
-            out.append(l + ws * rng.choice([1, 3]) if rng.random() < 0.5 else l)
+            out.append(l + ws * rng.choice([1, 3]) if rng.random() < p else l)
     elif kind == "scale":
         for l in lines:
             n = len(l) - len(l.lstrip(" "))
@@ -561,25 +584,31 @@ def lexdiff_case(P, content, codes):
 
 
 def v1pre_case(content):
-    """raw lines as model characters + what the real get_numbered_lines returns."""
+    """raw lines as model characters + what the real get_numbered_lines returns (None: IndexError)."""
     from nemoguardrails.colang.v1_0.lang.utils import get_numbered_lines
 
     if re.search(r"[^\S \t\n]", content):
         return {"skip": "other whitespace characters"}
     raw = content.split("\n")
+    has_cont = False
     for l in raw:
         s = l.strip()
-        if '"""' in s or (s.startswith('"') and not s.endswith('"')) or s.endswith("\\") or s.endswith(" or"):
+        if '"""' in s or (s.startswith('"') and not s.endswith('"')):
             return {"skip": "multi-line construct"}
+        if s.endswith("\\") or s.endswith(" or") or s == "or":
+            has_cont = True
+    if has_cont and any("#" in l and not l.strip().startswith("#") for l in raw):
+        return {"skip": "end-of-line comment in a text with continuations"}     # word_split is not modelled
     try:
         got = get_numbered_lines(content)
+    except IndexError:
+        return {"raw": raw, "expected": None}
     except Exception as e:  # noqa
         return {"skip": "get_numbered_lines raised " + type(e).__name__}
     exp = []
     for g in got:
         txt = g["text"]
-        rawl = raw[g["number"] - 1]
-        comparable = "#" not in rawl
+        comparable = has_cont or "#" not in raw[g["number"] - 1]
         exp.append([g["number"], g["indentation"], txt if comparable else None])
     return {"raw": raw, "expected": exp}
 
@@ -1038,9 +1067,11 @@ def _coq_chars(s):
 
 def _v1pre_term(r):
     raw = "[" + "; ".join(_coq_chars(l) for l in r["raw"]) + "]"
+    if r["expected"] is None:
+        return f"({raw}, None)"
     exp = "[" + "; ".join(
         f"({n}, {ind}, {'None' if t is None else '(Some ' + _coq_chars(t) + ')'})" for n, ind, t in r["expected"]) + "]"
-    return f"({raw}, {exp})"
+    return f"({raw}, Some {exp})"
 
 
 def classify_layout_diff(version, kind, content, edited):
